@@ -1139,3 +1139,69 @@ theorem dense_factorisation_never_fails (sqrtF : K → K) (hsq : ExactSqrt sqrtF
 end assembled
 end qd
 end Piqp.C14
+
+namespace Piqp.C14
+open Finset
+section qdreg
+variable {K : Type} [Field K] [LinearOrder K] [IsStrictOrderedRing K]
+variable {n p m : Nat}
+
+theorem vmax_zero_nonneg (x : K) : 0 ≤ vmax 0 x := by
+  unfold vmax; split
+  · rename_i h; exact le_of_lt h
+  · exact le_refl _
+
+theorem quad_addDiag (A : Mat K n n) (r : K) (x : Vec K n) :
+    quad (addDiag A (Vec.const n r)) x = quad A x + r * ∑ i : Fin n, x[i] * x[i] := by
+  unfold quad
+  rw [Finset.mul_sum, ← Finset.sum_add_distrib]
+  refine Finset.sum_congr rfl fun i _ => ?_
+  have : ∀ j : Fin n, (addDiag A (Vec.const n r))[i][j] = A[i][j] + (if i = j then r else 0) := by
+    intro j
+    simp only [addDiag, matOfFn_get']
+    split
+    · simp [Vec.const]
+    · simp
+  simp only [this, add_mul, Finset.sum_add_distrib, ite_mul, zero_mul, Finset.sum_ite_eq, Finset.mem_univ, if_true]
+  ring
+
+/-- with static regularisation (iterative refinement on) the factorised matrix is still quasi-definite: the sparse
+    factorisation never fails then either -/
+theorem sparse_factorisation_never_fails_refine (be : Backend) (hbe : be.isDense = false) (st : KKTSettings K) (d : Data K n p m) (k : KKT K n p m)
+    (perm : Vector (Fin (n + p + m)) (n + p + m)) (hperm : IsPerm perm) (hc : C13.Coherent be d k)
+    (hP : ∀ x : Vec K n, 0 ≤ quad d.Psym x) (hρ : 0 < k.rho) (hδ : 0 < k.delta)
+    (hw : ∀ t : Fin m, 0 < k.s[t] * k.zinv[t] + k.delta)
+    (hl : ∀ a : Fin n, d.lb.act a → 0 < k.zinv_lb[a] * k.s_lb[a] + k.delta)
+    (hu : ∀ a : Fin n, d.ub.act a → 0 < k.zinv_ub[a] * k.s_ub[a] + k.delta) :
+    (KKT.regFactor be st d k true (innerLDLT be perm)).factOk = true := by
+  have hpd := coherent_xx_pd be d k hc hP hρ hδ hw (boxTerm_nonneg d k hl hu)
+  unfold KKT.regFactor KKT.factOk
+  simp only [if_true, hbe, Bool.false_eq_true, if_false]
+  apply innerLDLT_succeeds be perm hperm
+  · intro a b
+    simp only [addDiag, matOfFn_get']
+    by_cases hab : a = b
+    · subst hab; rfl
+    · have hba : ¬ b = a := fun e => hab e.symm
+      simp only [hab, hba, if_false]
+      exact coherent_xx_symm be d k hc a b
+  · intro x hne
+    simp only
+    rw [quad_addDiag]
+    have h1 := hpd x hne
+    have h2 : 0 ≤ ∑ i : Fin n, x[i] * x[i] := Finset.sum_nonneg fun i _ => mul_self_nonneg _
+    have h3 := vmax_zero_nonneg (st.regEps + st.regRel * maxFinHead (maxFinHead (maxFin (maxFin 0 n fun j => d.P[j][j]) m fun i => k.zinv[i] * k.s[i]) d.lb.cnt n fun i => k.zinv_lb[i] * k.s_lb[i]) d.ub.cnt n (fun i => k.zinv_ub[i] * k.s_ub[i]) - k.rho)
+    nlinarith [mul_nonneg h3 h2]
+  · intro hk t
+    simp only [ofFn_get']
+    rw [hc.yy hk t]
+    have h3 := vmax_zero_nonneg (st.regEps + st.regRel * maxFinHead (maxFinHead (maxFin (maxFin 0 n fun j => d.P[j][j]) m fun i => k.zinv[i] * k.s[i]) d.lb.cnt n fun i => k.zinv_lb[i] * k.s_lb[i]) d.ub.cnt n (fun i => k.zinv_ub[i] * k.s_ub[i]) - k.delta)
+    linarith
+  · intro hk t
+    simp only [ofFn_get']
+    rw [hc.zz hk t]
+    have h3 := vmax_zero_nonneg (st.regEps + st.regRel * maxFinHead (maxFinHead (maxFin (maxFin 0 n fun j => d.P[j][j]) m fun i => k.zinv[i] * k.s[i]) d.lb.cnt n fun i => k.zinv_lb[i] * k.s_lb[i]) d.ub.cnt n (fun i => k.zinv_ub[i] * k.s_ub[i]) - k.delta)
+    have := hw t
+    linarith
+end qdreg
+end Piqp.C14
